@@ -282,6 +282,86 @@ def forbid_entropy(n):
 
 
 # ---------------------------------------------------------------------------
+# calling-convention seam: HOW the application calls the library is part of the environment the harness owns.  A style never
+# changes a VALUE handed to the library, only its carrier (a subclass of the public class, a bytes-like buffer instead of bytes,
+# keyword instead of positional password).  Oracles under a buffer style are relaxed in the one sound direction: the library
+# may REFUSE a bytes-like carrier with any exception, it may not compute something else from it (`style_accepts`).
+
+STYLE = None
+STYLES = ("subclass", "subclass-init", "password-keyword", "inbound-bytearray", "inbound-memoryview", "blob-bytearray", "unbound-calls")
+_SUBS = {}
+
+
+class call_style:
+    def __init__(self, style):
+        assert style is None or style in STYLES, style
+        self.style = style
+
+    def __enter__(self):
+        global STYLE
+        self.old, STYLE = STYLE, self.style
+        return self
+
+    def __exit__(self, *a):
+        global STYLE
+        STYLE = self.old
+
+
+def styled_class(cls):
+    """the public class as an application would use it under the current style"""
+    if STYLE == "subclass":
+        k = (cls, "plain")
+        if k not in _SUBS:
+            _SUBS[k] = type("App" + cls.__name__, (cls,), {"__doc__": "application subclass adding nothing"})
+        return _SUBS[k]
+    if STYLE == "subclass-init":
+        k = (cls, "init")
+        if k not in _SUBS:
+            def __init__(self, *a, **kw):
+                cls.__init__(self, *a, **kw)
+                self.app_session_label = "label-%d" % len(a)
+                self.app_log = []
+
+            def describe(self):
+                return "%s(%s)" % (type(self).__name__, self.app_session_label)
+            _SUBS[k] = type("Tracked" + cls.__name__, (cls,), {"__init__": __init__, "describe": describe})
+        return _SUBS[k]
+    return cls
+
+
+def styled_inbound(msg):
+    if STYLE == "inbound-bytearray" and isinstance(msg, bytes):
+        return bytearray(msg)
+    if STYLE == "inbound-memoryview" and isinstance(msg, bytes):
+        return memoryview(msg)
+    return msg
+
+
+def styled_blob(blob):
+    if STYLE == "blob-bytearray" and isinstance(blob, bytes):
+        return bytearray(blob)
+    return blob
+
+
+def do_start(obj):
+    if STYLE == "unbound-calls":
+        return type(obj).start(obj)
+    return obj.start()
+
+
+def do_finish(obj, msg):
+    """finish() under the current style (carrier of the inbound message / bound or unbound call)"""
+    if STYLE == "unbound-calls":
+        return type(obj).finish(obj, msg)
+    return obj.finish(styled_inbound(msg))
+
+
+def style_relaxed():
+    """under a bytes-like carrier style an exception where the definition yields a value is acceptable (the library may refuse the carrier)"""
+    return STYLE in ("inbound-bytearray", "inbound-memoryview", "blob-bytearray")
+
+
+# ---------------------------------------------------------------------------
 # instances
 
 class Inst:
@@ -308,14 +388,19 @@ class Inst:
         L = lib()
         if entropy is None:
             entropy = self.entropy(x) if x is not None else forbid_entropy
+        cls = styled_class(L.cls[side])
         if side == "S":
             idS = ids[0] if ids else b""
-            return L.S(pw, idSymmetric=idS, params=self.params, entropy_f=entropy)
+            if STYLE == "password-keyword":
+                return cls(password=pw, idSymmetric=idS, params=self.params, entropy_f=entropy)
+            return cls(pw, idSymmetric=idS, params=self.params, entropy_f=entropy)
         idA, idB = ids if ids else (b"", b"")
-        return L.cls[side](pw, idA=idA, idB=idB, params=self.params, entropy_f=entropy)
+        if STYLE == "password-keyword":
+            return cls(entropy_f=entropy, params=self.params, idB=idB, idA=idA, password=pw)
+        return cls(pw, idA=idA, idB=idB, params=self.params, entropy_f=entropy)
 
     def restore(self, side, blob):
-        return lib().cls[side].from_serialized(blob, params=self.params)
+        return styled_class(lib().cls[side]).from_serialized(styled_blob(blob), params=self.params)
 
     def w(self, pw):
         """password scalar as the library's group computes it (public group API)"""
